@@ -132,6 +132,7 @@ type genDyn struct {
 	raw    bool     // the untransformed tree member (for C08.B1)
 	repeat string   // strings.Repeat of this constant: zero or more copies
 	flaw   string   // a defect of the transformation chain itself (reported where the value is spliced)
+	quoted bool     // escaped by strconv.Quote: any byte of the value is written as an escape where needed
 }
 
 type genPiece struct {
@@ -482,6 +483,43 @@ func (a *genWalker) pieces(e ast.Expr) ([]genPiece, bool) {
 			}
 			if g, inner := a.stringForwarder(a.funcs[id.Name]); g != nil {
 				return []genPiece{{emit: g, emitCall: inner}}, true
+			}
+		}
+		// a string-valued method of the generator's state (`g.qualified(name)`)
+		if se, ok := x.Fun.(*ast.SelectorExpr); ok {
+			if fd := a.methodDecl(se); fd != nil && fd.Type.Results != nil && len(fd.Type.Results.List) >= 1 &&
+				types.Identical(a.info.TypeOf(fd.Type.Results.List[0].Type), types.Typ[types.String]) {
+				return a.evalStringFunc(fd, x)
+			}
+			// strconv.Quote(x): x as an interpreted string literal - whatever x contains is escaped
+			if id, ok := se.X.(*ast.Ident); ok && id.Name == "strconv" && se.Sel.Name == "Quote" && len(x.Args) == 1 {
+				ps, ok := a.pieces(x.Args[0])
+				if !ok {
+					return nil, false
+				}
+				out := []genPiece{{konst: `"`}}
+				for _, p := range ps {
+					if p.dyn != nil {
+						d := *p.dyn
+						d.first, d.rest = d.first.copy(), d.rest.copy()
+						for _, c := range []byte{'"', '\\', '\n', '\r', '\t', 0} {
+							d.first[c], d.rest[c] = false, false
+						}
+						for c := 0; c < 32; c++ {
+							d.first[c], d.rest[c] = false, false // control characters are written as escapes
+						}
+						d.first['\\'], d.rest['\\'] = false, false
+						d.raw = false
+						d.what = "Quote(" + d.what + ")"
+						d.quoted = true
+						out = append(out, genPiece{dyn: &d})
+					} else if p.alts == nil && p.group == nil && p.emit == nil {
+						out = append(out, genPiece{konst: strings.Trim(strconv.Quote(p.konst), `"`)})
+					} else {
+						return nil, false
+					}
+				}
+				return append(out, genPiece{konst: `"`}), true
 			}
 		}
 		// strings.Join(list, sep) of a local list that is filled by appends in a loop: zero or more elements
@@ -937,7 +975,7 @@ func (a *genWalker) recordStateFields(lhs, rhs ast.Expr) {
 			a.kwSafe[fld] = true
 		}
 	}
-	if se, ok := lhs.(*ast.SelectorExpr); ok {
+	if se, ok := lhs.(*ast.SelectorExpr); ok && lhs != nil {
 		if fld, ok := a.info.Uses[se.Sel].(*types.Var); ok {
 			set(fld, rhs)
 		}
@@ -1013,6 +1051,23 @@ func formatEmitter(info *types.Info, fd *ast.FuncDecl) int {
 		}
 	}
 	return -1
+}
+
+// returnsState: fd's first result is (a pointer to) a struct type declared in the generator package.
+func (a *genWalker) returnsState(fd *ast.FuncDecl) bool {
+	if fd.Type.Results == nil || len(fd.Type.Results.List) == 0 {
+		return false
+	}
+	t := a.info.TypeOf(fd.Type.Results.List[0].Type)
+	if pt, ok := t.(*types.Pointer); ok {
+		t = pt.Elem()
+	}
+	n, ok := t.(*types.Named)
+	if !ok || n.Obj().Pkg() == nil || n.Obj().Pkg().Path() != pkgGen {
+		return false
+	}
+	_, isStruct := n.Underlying().(*types.Struct)
+	return isStruct
 }
 
 // concatArgs: a1 + a2 + ... (what a variadic emitter writes).
@@ -1169,6 +1224,26 @@ func (a *genWalker) stmt(s ast.Stmt, l lexState, rets *[]lexState) (lexState, bo
 			}
 		}
 	case *ast.AssignStmt:
+		if len(x.Rhs) == 1 {
+			// g, err := newGenerator(...): the constructor of the generator's state is walked (without emitting) for the
+			// values it gives the state's string members
+			if c, ok := x.Rhs[0].(*ast.CallExpr); ok {
+				if fid, ok := c.Fun.(*ast.Ident); ok {
+					if fd := a.funcs[fid.Name]; fd != nil && fd.Body != nil && a.returnsState(fd) && a.evalDepth < 3 {
+						a.bindParams(fd, c)
+						save := a.curFn
+						a.evalDepth++
+						a.curFn = fd.Name.Name
+						var rr []lexState
+						saveRet, saveRetFn := a.retExprs, a.retFn
+						a.stmts(fd.Body.List, lexState{}, &rr)
+						a.retExprs, a.retFn = saveRet, saveRetFn
+						a.evalDepth--
+						a.curFn = save
+					}
+				}
+			}
+		}
 		if len(x.Lhs) == 2 && len(x.Rhs) == 1 {
 			// name, ok := table[key]
 			if ix, ok := x.Rhs[0].(*ast.IndexExpr); ok {
@@ -1314,6 +1389,9 @@ func (a *genWalker) stmt(s ast.Stmt, l lexState, rets *[]lexState) (lexState, bo
 		}
 		return j, false
 	case *ast.ReturnStmt:
+		for _, res := range x.Results {
+			a.recordStateFields(nil, res) // `return &generator{pkg: name, ...}` of a constructor
+		}
 		if a.evalDepth > 0 && len(x.Results) >= 1 {
 			a.retExprs = append(a.retExprs, x.Results[0])
 			a.retFn = append(a.retFn, a.curFn)
@@ -1390,6 +1468,40 @@ func (a *genWalker) evalStringFunc(fd *ast.FuncDecl, call *ast.CallExpr) ([]genP
 		return nil, false
 	}
 	a.bindParams(fd, call)
+	// for this evaluation the string parameters stand for the argument expressions of this call (so that
+	// `qualified(e.Name)` is <interface name> + "." + <this error's name>, not a name of unknown kind)
+	type bound struct {
+		obj   types.Object
+		old   ast.Expr
+		had   bool
+		oldKw bool
+	}
+	var bs []bound
+	if fd.Type.Params != nil && !call.Ellipsis.IsValid() {
+		idx := 0
+		for _, fld := range fd.Type.Params.List {
+			for _, pn := range fld.Names {
+				if types.Identical(a.info.TypeOf(fld.Type), types.Typ[types.String]) && idx < len(call.Args) {
+					if obj := a.info.Defs[pn]; obj != nil {
+						old, had := a.locals[obj]
+						bs = append(bs, bound{obj, old, had, a.kwSafe[obj]})
+						a.locals[obj] = a.freeze(call.Args[idx])
+					}
+				}
+				idx++
+			}
+		}
+	}
+	defer func() {
+		for _, b := range bs {
+			if b.had {
+				a.locals[b.obj] = b.old
+			} else {
+				delete(a.locals, b.obj)
+			}
+			a.kwSafe[b.obj] = b.oldKw
+		}
+	}()
 	saveFn, saveRet, saveRetFn := a.curFn, a.retExprs, a.retFn
 	nSpl, nPrb, nFrag := len(a.Splices), len(a.Problems), len(a.Frags)
 	a.evalDepth++
